@@ -178,13 +178,7 @@ pub fn process_text_attr(element: &SvgElement) -> Result<(SvgElement, Vec<SvgEle
     let text_pre = orig_elem.has_class("d-text-pre");
 
     // There will always be a text element; if not multiline this is the only element.
-    let mut text_elem = if orig_elem.name == "text" {
-        orig_elem.clone()
-    } else {
-        SvgElement::new("text", &[])
-    };
-    text_elem.set_attr("x", &x_str);
-    text_elem.set_attr("y", &y_str);
+    // The text-specific attributes are taken off first: a `<text>` carrier is copied.
     // line spacing (in 'em').
     let line_spacing = strp(&orig_elem.pop_attr("text-lsp").unwrap_or("1.05".to_owned()))?;
     // Extract style and class(es) from original element. Note we use
@@ -193,6 +187,13 @@ pub fn process_text_attr(element: &SvgElement) -> Result<(SvgElement, Vec<SvgEle
     // the original element's desired style (e.g. setting `style="fill:red"`
     // on a rect with `text` present would cause red-on-red invisible text).
     let text_style = orig_elem.pop_attr("text-style");
+    let mut text_elem = if orig_elem.name == "text" {
+        orig_elem.clone()
+    } else {
+        SvgElement::new("text", &[])
+    };
+    text_elem.set_attr("x", &x_str);
+    text_elem.set_attr("y", &y_str);
     if let Some(ref style) = text_style {
         text_elem.set_attr("style", style);
     }
